@@ -140,8 +140,17 @@ func Solve(file, qfFile, liaFile string, timeout time.Duration, all bool, cover 
 		}(r)
 	}
 	res := &SolveResult{Status: "unknown", All: map[string]string{}}
+	var grace <-chan time.Time
 	for got := 0; got < len(runs); got++ {
-		a := <-ch
+		var a ans
+		select {
+		case a = <-ch:
+		case <-grace:
+			// thorough tier: the other solvers had their chance to contradict the first answer
+			cancel()
+			grace = nil
+			a = <-ch
+		}
 		res.All[a.solver] = a.status
 		decisive := a.status == "unsat" || (a.status == "sat" && (!a.qf || isCover))
 		if decisive {
@@ -151,6 +160,7 @@ func Solve(file, qfFile, liaFile string, timeout time.Duration, all bool, cover 
 					cancel()
 					break
 				}
+				grace = time.After(6 * time.Second)
 			} else if res.Status != a.status {
 				res.Status = "error"
 				res.Output += "\nSOLVER DISAGREEMENT: " + a.solver + " says " + a.status
